@@ -47,6 +47,7 @@ type Case struct {
 	Value pgen.Recipe   `json:"value"`
 	Seed  uint64        `json:"seed"`
 	Only  *Derived      `json:"only,omitempty"`
+	Long  *LongSpec     `json:"long,omitempty"` // a long well-formed input (TestLongInputs); Type/Value/Seed/Only unused
 }
 
 const (
@@ -676,6 +677,16 @@ func quiesceGC() {
 
 func run(t fataler, test string, c Case, account bool) {
 	t.Helper()
+	if c.Long != nil {
+		evid.Journal(test, c)
+		f, _, _ := checkLong(c.Long)
+		evid.JournalClear()
+		evid.Eval(1)
+		if f != nil {
+			evid.Violation(t, test, c, f)
+		}
+		return
+	}
 	if cls := preClass(c); cls != "" && evid.KnownActive(cls) {
 		evid.Excluded(cls)
 		return
@@ -794,7 +805,7 @@ func TestReplay(t *testing.T) {
 			t.Fatalf("replay %s: %v", p, err)
 		}
 		var c Case
-		if err := json.Unmarshal(raw, &c); err != nil || c.Type.K == "" {
+		if err := json.Unmarshal(raw, &c); err != nil || c.Type.K == "" && c.Long == nil {
 			fmt.Fprintf(os.Stderr, "replay %s: not a C07 case, skipped\n", p)
 			continue
 		}
